@@ -98,6 +98,11 @@ fn templates() -> Vec<(&'static str, &'static str)> {
         ("ParseError", "cmd a;\n«)» b;\ncmd c;\n"),
         ("ParseError", "cmd a;\n\n# c\n  «<X» ::= ;\n"),
         ("ParseError", "cmd a\n  b;\n«cmd (c;»\n"),
+        // the mistake sits deep inside the statement (after `::=`, on a later line): the location is
+        // still the start of the first statement that cannot be parsed
+        ("ParseError", "cmd <FOO>;\n«<FOO>» ::= bar\n    | (baz;\n"),
+        ("ParseError", "cmd <FOO>;\n\n  «<FOO>» ::= bar baz);\n"),
+        ("ParseError", "cmd a;\n«cmd» b (c\n  | d;\ncmd e;\n"),
     ]
 }
 
